@@ -271,9 +271,90 @@ def run_tree(ck, rules, stats, samples):
     sb.cleanup()
 
 
+def bystanders(ck, rng, stats):
+    """Files in new/ and cur/ that are not messages - symbolic links (to a matching message file, relative and absolute,
+    dangling, to a directory), a sub-directory holding a message, a FIFO - are left exactly as they are, on file systems
+    that report file types and on those that do not (DT_UNKNOWN), whatever the rules do with the real messages."""
+    import stat as st_, iorun
+    MSG = b'To: a@example.org\nSubject: bystander\nX-A0: yes\n\nbody\n'
+    rules = ['match all move "%(mdA)s"', 'match all label "x"', 'match all discard', 'match new flag !new\n\tmatch old flag new',
+             'match header "Subject" /bystander/ move "%(mdA)s"', 'match all add-header "X-B" "1" move "%(mdA)s"']
+    for rule in rules:
+        for dtunknown in (False, True):
+            sb = mdrun.Sandbox()
+            src = sb.maildir('src'); mdA = sb.maildir('mdA')
+            outside = os.path.join(sb.root, 'outside'); os.makedirs(outside)
+            target = os.path.join(outside, 'target.msg')
+            with open(target, 'wb') as f:
+                f.write(MSG)
+            os.utime(target, (1400000000, 1400000000))
+            tdir = os.path.join(outside, 'dir'); os.makedirs(tdir)
+            real = []
+            for sub in ('new', 'cur'):
+                real.append(sb.add(src, sub, MSG.replace(b'bystander', b'bystander real'), mtime=1500000000))
+                d = os.path.join(src, sub)
+                os.symlink('../../outside/target.msg', os.path.join(d, 'rel-link'))
+                os.symlink(target, os.path.join(d, 'abs-link:2,S'))
+                os.symlink(os.path.join(outside, 'nowhere'), os.path.join(d, 'dangling'))
+                os.symlink(tdir, os.path.join(d, 'dir-link'))
+                os.makedirs(os.path.join(d, 'subdir'))
+                with open(os.path.join(d, 'subdir', 'inner.msg'), 'wb') as f:
+                    f.write(MSG)
+                os.mkfifo(os.path.join(d, 'fifo'))
+
+            def survey():
+                out = {}
+                for sub in ('new', 'cur'):
+                    d = os.path.join(src, sub)
+                    for n in ('rel-link', 'abs-link:2,S', 'dangling', 'dir-link', 'subdir', 'fifo'):
+                        p_ = os.path.join(d, n)
+                        try:
+                            l = os.lstat(p_)
+                            out[(sub, n)] = (st_.S_IFMT(l.st_mode), os.readlink(p_) if st_.S_ISLNK(l.st_mode) else None)
+                        except OSError:
+                            out[(sub, n)] = None
+                    try:
+                        out[(sub, 'inner')] = open(os.path.join(d, 'subdir', 'inner.msg'), 'rb').read()
+                    except OSError:
+                        out[(sub, 'inner')] = None
+                out['target'] = (open(target, 'rb').read(), os.stat(target).st_mtime_ns) if os.path.exists(target) else None
+                return out
+            before = survey()
+            conf = sb.write_conf(('maildir "%s" {\n\t%s\n}\n' % (src, rule % {'mdA': mdA})).encode())
+            env = {'VFIO_ROOT': sb.root}
+            if dtunknown:
+                env['VFIO_DTUNKNOWN'] = '1'
+            rc, out, err = sb.run([], conf=conf, env=env, preload=iorun.SHIM, timeout=30)
+            stats['runs'] += 1; stats['bystander_runs'] = stats.get('bystander_runs', 0) + 1
+            after = survey()
+            changed = [k for k in before if before[k] != after[k]]
+            extra = [n for (sub, n) in sb.snapshot(mdA) if True]
+            nmoved = len(sb.snapshot(mdA))
+            why = None
+            if changed:
+                why = 'files that are not messages were changed: %r' % [(k, before[k], after[k]) for k in changed][:3]
+            elif nmoved > 2:
+                why = '%d files arrived in the destination although the maildir holds 2 messages' % nmoved
+            elif rc == -999 or rc < 0:
+                why = 'mdsort did not terminate normally (%d)' % rc
+            if why:
+                stats['viol'] += 1
+                ck.violation('non-message files in the maildir (%s, rule %r): %s' % ('file types not reported by readdir' if dtunknown else 'file types reported', rule, why),
+                             {'stage': 'bystanders', 'rule': rule, 'dtunknown': dtunknown, 'exit': rc, 'stderr': err[-300:].decode(errors='replace')})
+            # the FIFO must not be opened blockingly: reaching this line means it was not
+            try:
+                os.unlink(os.path.join(src, 'new', 'fifo')); os.unlink(os.path.join(src, 'cur', 'fifo'))
+            except OSError:
+                pass
+            sb.cleanup()
+            if stats['viol'] > 3:
+                return
+
+
 def run(ck):
     rng = ck.rng
     stats = dict(runs=0, evals=0, dis=0, viol=0, clean=0, T1=0, T2=0, T3=0, nontrivial=set())
+    bystanders(ck, rng, stats)
     samples = []
     small = list(small_trees())
     if ck.tier == 'quick':
@@ -293,11 +374,12 @@ def run(ck):
         'distinct_nontrivial': len(stats['nontrivial']),
         'rule': 'rule trees: a bounded-exhaustive family (<= 3 rules per block, depth <= 1, 6 conditions x 6 action lists, sub-sampled in the quick tier) and random '
                 'trees (depth <= 3, <= 4 rules per block, and/or/!/parentheses/unparenthesised chains, pass/break as last action), each on all 8 truth assignments '
-                'of 3 matchers; non-trivial = the model or the documented semantics select at least one action; distinct = distinct (tree, assignment)',
+                'of 3 matchers; plus 12 runs over a maildir holding non-message files (symbolic links to a matching message file / dangling / to a directory, a sub-directory, a FIFO) with file types reported and not reported by readdir; non-trivial = the model or the documented semantics select at least one action; distinct = distinct (tree, assignment)',
         'samples': samples,
         'traces_validated_against_impl': stats['evals'],
         'disagreements_checked': stats['dis'],
         'clean_evaluations': stats['clean'], 'T1': stats['T1'], 'T2': stats['T2'], 'T3': stats['T3'],
+        'bystander_runs': stats.get('bystander_runs', 0),
     })
     ck.assumptions += ['matchers are header patterns over X-A<i> headers (atoms that record a match); plain matchers and attachment conditions are covered by C11/C13 checks',
                        'messages sit in src/cur so that a message flagged into another subdirectory is not walked twice (finding F-20)']
